@@ -137,6 +137,11 @@ func buildSubs(xs []mItem, spare int) (*astisub.Subtitles, map[*astisub.Item]int
 		ids[it] = x.uid
 		s.Items = append(s.Items, it)
 	}
+	if spare%2 == 1 {
+		// metadata of the formats the list may have been read from: the operations on cues do not look at it
+		s.Metadata = &astisub.Metadata{Framerate: 30, Title: "t", Language: astisub.LanguageFrench, STLTimecodeStartOfProgramme: 10 * time.Hour,
+			WebVTTTimestampMap: &astisub.WebVTTTimestampMap{Local: 1500 * time.Millisecond, MpegTS: 900000}}
+	}
 	return s, ids
 }
 
